@@ -2,6 +2,7 @@ package builder
 
 import (
 	"fmt"
+	"math/big"
 	"sort"
 
 	"github.com/dave/jennifer/jen"
@@ -69,7 +70,7 @@ func (*Enum) Build(gen Generator, ctx *MethodContext, sourceID *xtype.JenID, sou
 		}
 
 		sourceValue := sourceEnum.Members[sourceName]
-		if previous, ok := sourceTargetMapping[sourceValue]; ok {
+		if previous, ok := sourceTargetMapping[comparableValue(sourceValue)]; ok {
 			if enumTargetMismatches(previous, targetEnum, targetName) {
 				return nil, nil, enumTargetMismatchError(targetEnum, sourceName, targetName, previous, sourceValue).Lift(&Path{
 					SourceType: fmtEnumValue(sourceEnum, sourceName),
@@ -84,7 +85,7 @@ func (*Enum) Build(gen Generator, ctx *MethodContext, sourceID *xtype.JenID, sou
 					fmtEnumValue(sourceEnum, previous.Source), fmtEnumValue(targetEnum, previous.Target))))
 			}
 		} else {
-			sourceTargetMapping[sourceValue] = enumMapping{Source: sourceName, Target: targetName}
+			sourceTargetMapping[comparableValue(sourceValue)] = enumMapping{Source: sourceName, Target: targetName}
 			cases = append(cases, jen.Case(sourceQual).Add(body))
 		}
 	}
@@ -178,9 +179,19 @@ func executeTransformers(transformers []config.ConfiguredTransformer, source, ta
 
 func enumTargetMismatches(previous enumMapping, targetEnum *xtype.Enum, targetName string) bool {
 	if !config.IsEnumAction(targetName) && !config.IsEnumAction(previous.Target) {
-		return targetEnum.Members[previous.Target] != targetEnum.Members[targetName]
+		return comparableValue(targetEnum.Members[previous.Target]) != comparableValue(targetEnum.Members[targetName])
 	}
 	return targetName != previous.Target
+}
+
+// comparableValue makes an enum member value comparable with ==: go/constant represents
+// floats and integers outside of int64 as pointers, which would be compared by identity.
+func comparableValue(v interface{}) interface{} {
+	switch v.(type) {
+	case *big.Int, *big.Rat, *big.Float:
+		return fmt.Sprintf("%T(%v)", v, v)
+	}
+	return v
 }
 
 func enumTargetMismatchError(targetEnum *xtype.Enum, sourceName, targetName string, previous enumMapping, sourceValue interface{}) *Error {
